@@ -152,7 +152,7 @@ enum O {
 fn probe_unit(u: Unit) -> (i8, i8) {
     for m in -4..=4i8 {
         for s in -5..=5i8 {
-            if u == Unit::new(m, s) {
+            if ueq(u, Unit::new(m, s)) {
                 return (m, s);
             }
         }
@@ -255,7 +255,7 @@ fn main() {
                                 if r.n <= 4 { first_present_hist |= 1 << r.n; }
                                 if r.n == 2 { rep.tally(&format!("first_present_at_sample_2/{}", name)); }
                                 let eu = if kind == 0 { (c.unit.0, c.unit.1 + 1) } else { (c.unit.0, c.unit.1 - 1) };
-                                if *ou != eu {
+                                if dim_checked() && *ou != eu { // (units do not exist with dimension checking compiled out)
                                     rep.violation(&format!("C10/unit/{}", name), sub, case, format!("event {}: output unit exps {:?}, expected {:?}; case={:?}", i, ou, eu, c));
                                     break;
                                 }
@@ -384,7 +384,8 @@ fn main() {
                     });
                     rep.eval();
                     rep.distinct(("units", kind, m, s, nth));
-                    let expect_panic = (m, s) != good;
+                    // with dimension checking compiled out nothing may panic (there are no units to disagree)
+                    let expect_panic = (m, s) != good && dim_checked();
                     if expect_panic { rep.tally("unit_panics_expected"); }
                     match (expect_panic, res.is_err()) {
                         (true, true) => rep.tally("unit_panics_observed"),
@@ -397,7 +398,7 @@ fn main() {
         }
     }
     rep.exhaustive("to-state converters x 49 input units x position of the offending sample (1st, 2nd, 3rd)");
-    rep.floor("unit_panics_observed", 400);
+    if dim_checked() { rep.floor("unit_panics_observed", 400); rep.tally("lane/checked"); } else { rep.tally("lane/unchecked"); }
     rep.floor("present_at_sample_3/AccelerationToState", 100);
     rep.floor("present_at_sample_3/PositionToState", 100);
     rep.finish(&args);
